@@ -22,7 +22,8 @@ Built NEXT to Props/C03Q2.lean (queries, `TQ2`), Props/C03D.lean (data-change st
   MySQL rendering does not state them (see the note on the information loss at the end);
 * `SHOW COLUMNS FROM t [alias], … [WHERE e]`: tables (also derived tables) and filter of the larger query fragment (`TQ2.fromOK4`, `TQ2.FragO4`);
   the model (and the parser) has no second `FROM db`;
-* `CREATE TABLE t AS <query of FragQ2>`.
+* `CREATE TABLE t AS <query>`: a query of `FragQ2`, or `WITH name AS (q), …` in front of a query of `FragQ` (`TR.selOK`; `_parse_select_statement`
+  finds the WITH clause itself there).
 
 **The union** `TR.FragAny d s` = a query of `FragQ2` ∨ a statement of `TDM.FragStmt` (DELETE / UPDATE / INSERT / WITH … over `FragQ`) ∨ a
 CREATE TABLE of `TD.FragCreate` ∨ `FragRest`; printer `TR.toksAny`; continuation `TR.stopsAny d rest`: empty, or a head with source `;`
@@ -243,11 +244,13 @@ def sc1 : Stmt := .showColumns [tb "t", .mk (.table (some "s") "u") (some "x")] 
 def sc2 : Stmt := .showColumns [tb "t"] none
 def ca1 : Stmt := .createTableAs (tn "t" (some "s")) q2w2
 def ca2 : Stmt := .createTableAs (tn "t") q3
+/-- `CREATE TABLE t AS WITH x AS (…), y AS (…) SELECT … UNION ALL SELECT …` -/
+def ca3 : Stmt := match C03.Dml.w1 with | .select q => .createTableAs (tn "t") q | s => s
 -- every new class in MYSQL and HIVE
-#guard [a1, a3, dr1, dr2, tr1, ms1, us1, us2, st1, st2, st3, an2, sc1, sc2, ca1, ca2, .showDatabases, .showTables].all (agreesAny .MYSQL) &&
-  [a2, a3, dr1, dr2, tr1, ms1, us1, us2, st1, st2, st3, an1, an2, an3, an4, sc1, sc2, ca1, ca2, .showDatabases, .showTables].all (agreesAny .HIVE)
+#guard [a1, a3, dr1, dr2, tr1, ms1, us1, us2, st1, st2, st3, an2, sc1, sc2, ca1, ca2, ca3, .showDatabases, .showTables].all (agreesAny .MYSQL) &&
+  [a2, a3, dr1, dr2, tr1, ms1, us1, us2, st1, st2, st3, an1, an2, an3, an4, sc1, sc2, ca1, ca2, ca3, .showDatabases, .showTables].all (agreesAny .HIVE)
 #guard [a1, a2, a3, dr1, dr2, tr1, ms1, us1, us2, st1, st2, st3, an2, sc1, sc2, ca1, ca2, .showDatabases, .showTables].all (roundTripsAny .MYSQL) &&
-  [a2, a3, dr1, dr2, tr1, ms1, us1, us2, st1, st2, st3, an1, an2, an3, an4, sc1, sc2, ca1, ca2, .showDatabases, .showTables].all (roundTripsAny .HIVE) &&
+  [a2, a3, dr1, dr2, tr1, ms1, us1, us2, st1, st2, st3, an1, an2, an3, an4, sc1, sc2, ca1, ca2, ca3, .showDatabases, .showTables].all (roundTripsAny .HIVE) &&
   [a2, dr1, st1, an2, sc1, ca1].all (roundTripsAny .ORACLE)
 -- the old classes through the union printer: queries of the larger fragment, data-change statements, WITH, CREATE TABLE
 #guard [.select q2w1, .select q2w2, .select q2w4, C03.Dml.d1, C03.Dml.u1, C03.Dml.i1, C03.Dml.i4, C03.Dml.w1, C03.Dml.w2, .createTable C18.t2].all (agreesAny .MYSQL) &&
